@@ -139,11 +139,28 @@ def flatStOfJson (j : Json) : Except String (Flat Int) :=
     let v ← asInt (← argAt it 1)
     pure (p, v)) j
 
-def predOfJson (j : Json) : Except String (SPath → Int → Bool) :=
+/-- `types`: for every leaf (identified by its value) the class names in the MRO of its variable type -/
+def typesTable (j : Json) : Except String (List (Int × List String)) :=
+  asList (fun it => do
+    let v ← asInt (← argAt it 0)
+    let ts ← asList asStr (← argAt it 1)
+    pure (v, ts)) j
+
+def typesOfTable (tbl : List (Int × List String)) (a : Int) : List String :=
+  match tbl.find? (fun e => e.1 == a) with
+  | some e => e.2
+  | none => []
+
+def predOfJson (tbl : List (Int × List String)) (j : Json) : Except String (SPath → Int → Bool) :=
   match j with
   | .str "all" => .ok (fun _ _ => true)
   | .str "none" => .ok (fun _ _ => false)
   | _ =>
+    match j.getObjVal? "type" with
+    | .ok t => do
+        let t ← asStr t
+        .ok (ofType (typesOfTable tbl) t)
+    | _ =>
     match j.getObjVal? "contains", j.getObjVal? "pathin", j.getObjVal? "lt", j.getObjVal? "mod" with
     | .ok k, _, _, _ => do
         let k ← stKey k
@@ -247,11 +264,17 @@ def handle : Handler := fun fn args =>
       let pd ← kvsOfJson stKey (← argAt args 1)
       .ok (kvsToJson stKeyJson (← serrJson (replaceByPureOrig tryConvertInt (fun _ v => v) s pd)))
   | "split" => do
-      let preds ← asList predOfJson (← argAt args 0)
+      let tbl ← match argAt args 2 with
+        | .ok t => typesTable t
+        | .error _ => pure []
+      let preds ← asList (predOfJson tbl) (← argAt args 0)
       let s ← kvsOfJson stKey (← argAt args 1)
       .ok (smapsJson (← serrJson (splitState preds s)))
   | "filter" => do
-      let preds ← asList predOfJson (← argAt args 0)
+      let tbl ← match argAt args 2 with
+        | .ok t => typesTable t
+        | .error _ => pure []
+      let preds ← asList (predOfJson tbl) (← argAt args 0)
       let s ← kvsOfJson stKey (← argAt args 1)
       .ok (smapsJson (← serrJson (filterState preds s)))
   | "merge" => do
